@@ -1401,12 +1401,16 @@ protected:
         return finalCRLF + 2;
       }
 
-      // Skip chunk data + trailing \r\n
-      pos += chunkSize + 2;
-      if (pos > data.length())
+      // Skip chunk data + trailing \r\n. chunkSize is peer-controlled: compare it with the
+      // bytes actually buffered BEFORE adding it (pos + chunkSize + 2 wraps around for a
+      // size near SIZE_MAX, the scan position then never advances and this loop spins
+      // forever on the I/O thread).
+      const std::size_t available = data.length() - pos;
+      if (chunkSize > available || available - chunkSize < 2)
       {
         return std::string::npos; // Need more data
       }
+      pos += chunkSize + 2;
     }
 
     return std::string::npos;
